@@ -459,6 +459,11 @@ impl<T: Elem> MVec<T> {
     pub fn iter(&self) -> MVecIter<'_, T> {
         MVecIter { v: self, pos: 0 }
     }
+    /// `<[T]>::windows`: overlapping windows of `n` consecutive elements (indexable like slices)
+    pub fn windows(&self, n: usize) -> Windows<'_, T> {
+        assert!(n >= 1, "window size must be non-zero");
+        Windows { v: self, n, pos: 0 }
+    }
     /// `sort_unstable_by_key`: selection sort into a fresh store (at most `CAP` elements)
     pub fn sort_unstable_by_key<K: Ord, F: FnMut(&T) -> K>(&mut self, mut f: F)
     where
@@ -508,6 +513,41 @@ impl<T: Elem> std::ops::Index<std::ops::RangeFull> for MVec<T> {
     type Output = MVec<T>;
     fn index(&self, _: std::ops::RangeFull) -> &MVec<T> {
         self
+    }
+}
+
+pub struct Windows<'a, T: Elem> {
+    v: &'a MVec<T>,
+    n: usize,
+    pos: usize,
+}
+pub struct Window<'a, T: Elem> {
+    v: &'a MVec<T>,
+    start: usize,
+    n: usize,
+}
+impl<'a, T: Elem> Iterator for Windows<'a, T> {
+    type Item = Window<'a, T>;
+    fn next(&mut self) -> Option<Window<'a, T>> {
+        if self.pos + self.n <= self.v.len {
+            let w = Window { v: self.v, start: self.pos, n: self.n };
+            self.pos += 1;
+            Some(w)
+        } else {
+            None
+        }
+    }
+}
+impl<'a, T: Elem> std::ops::Index<usize> for Window<'a, T> {
+    type Output = T;
+    fn index(&self, i: usize) -> &T {
+        assert!(i < self.n, "window index out of bounds");
+        &self.v[self.start + i]
+    }
+}
+impl<'a, T: Elem> Window<'a, T> {
+    pub fn len(&self) -> usize {
+        self.n
     }
 }
 
